@@ -11,7 +11,7 @@ import random
 
 from common import *  # noqa
 
-NAMES = ["a", "b", "c", "d", "e", "f"]
+NAMES = ["a", "b", "c", "d", "e", "f", "a ", " b", "A"]      # "a " / " b" / "A" are names of their own (blanks and case are part of a name)
 SALS = [-3, 0, 0, 1, 5, 5, 9, -2 ** 63, 2 ** 63 - 1]      # the int64 extremes: differences of saliences overflow
 DESCS = ["", "d1", "d2"]
 
